@@ -134,6 +134,7 @@ Proof.
   split; [intros _ b; apply L|]. split; [intros _ b Hb; now rewrite !I|].
   intros _ b Hb. unfold fit16. apply ok_firstn. apply ok_app. split; [exact Hb|reflexivity].
 Qed.
+Print Assumptions C05_dec_enc_hyps_sat.
 
 Example C05_openssl_vector :
   let key := hex "000102030405060708090a0b0c0d0e0f" in
@@ -142,6 +143,7 @@ Example C05_openssl_vector :
   do_encrypt aes_enc (repeat 0%N 32) (repeat 0%N 32) key iv = (Done, ct, repeat 0%N 32) /\
   do_decrypt aes_dec ct (repeat 0%N 32) key iv = (Done, repeat 0%N 32, ct).
 Proof. vm_compute. split; reflexivity. Qed.
+Print Assumptions C05_openssl_vector.
 
 (* ---- 3. the caller's input buffer is never modified: every key, iv, input, output buffer, and every
         status (also when the call returns an error or panics) ---- *)
@@ -246,6 +248,7 @@ Example C05_tempkeys_fixture :
   = Ok (hex "f011280887c7bb01df0fc4e17830e0b91fbb8be4b2267cb985ae25f33b527253",
         hex "3212d579ee35452ed23e0d0c92841aa7d31b2e9bdef2151e80d15860311c85db").
 Proof. vm_compute. reflexivity. Qed.
+Print Assumptions C05_tempkeys_fixture.
 
 (* ---- 7. the key-exchange wrapper recovers payloads of every length ---- *)
 (* (a) from a conformant peer: textbook IGE under the MTProto temp keys of SHA1(payload) ++ payload ++ pad,
@@ -332,6 +335,7 @@ Example C05_try_decrypt_short :
   trydec_temp sha1 aes_dec (repeat 0%N 16) 5%N 7%N = Err /\ trydec_temp sha1 aes_dec [] 5%N 7%N = Err /\
   trydec_temp sha1 aes_dec (repeat 0%N 48) 5%N 7%N = Err.
 Proof. vm_compute. repeat split; reflexivity. Qed.
+Print Assumptions C05_try_decrypt_short.
 
 (* with the Gallina SHA-1 and AES the ONLY hypothesis left is the explicit SHA-1 no-collision one *)
 Theorem C05_temp_roundtrip_inst :
@@ -372,6 +376,7 @@ Example C05_roundtrip_len12 :
   | _ => false
   end = true.
 Proof. vm_compute. reflexivity. Qed.
+Print Assumptions C05_roundtrip_len12.
 
 Example C05_roundtrip_pad15 :
   let nn := hex "311c85db234aa2640afc4a76a735cf5b1f0fd68bd17fa181e1229ad867cc024d" in
@@ -393,3 +398,4 @@ Proof.
     specialize (Hc ltac:(lia)). apply Bool.negb_true_iff in Hc. now apply beq_neq.
   - vm_compute. reflexivity.
 Qed.
+Print Assumptions C05_roundtrip_pad15.
